@@ -3,7 +3,8 @@
    reader (TwoBuffer.tla) in lock-step with the reader contract
    (IdealReader.tla), for EVERY source of at most MaxRunes runes over Kinds
    and EVERY sequence of client operations that respects the two-buffer
-   contract (a lexeme plus its lookahead never exceeds one half).
+   contract (a lexeme plus its lookahead never exceeds one half; for the
+   template as emitted now, Variant = "emit", lexemes of ANY length).
    Invariant: both return the same value for every operation.
    With Variant = "dep" TLC produces the histories on which the dependency's
    reader loses input (known finding READER-DEP); with Variant = "fixed" the
@@ -29,7 +30,15 @@ IdsOf(a, b) == LET RECURSIVE F(_) F(j) == IF j > b THEN <<>> ELSE [k \in 1..Size
 Norm(r) == IF r[1] = "lexeme" THEN <<"lexeme", IdsOf(beg, cur), r[3]>> ELSE r
 
 \* the client contract of the two-buffer scheme
-CanNext == PendingBytes(st) + (IF cur < Len(src) THEN Size(src[cur + 1]) ELSE 1) <= N
+\* ("dep", "fixed": a lexeme plus its lookahead never exceeds one half; "emit": only a single rune must fit into a half)
+CanNext == IF Variant = "emit" THEN (cur < Len(src) => Size(src[cur + 1]) <= N)
+           ELSE PendingBytes(st) + (IF cur < Len(src) THEN Size(src[cur + 1]) ELSE 1) <= N
+
+\* "emit": lexemes are unbounded, so only the rune read last is certainly still in the buffer and may be given back
+\* (all the emitted lexer ever does).  TLC found the history that breaks anything more liberal: N = 2, source of two
+\* 2-byte runes, Next Next Retract Retract Next - the second Retract returns into a half that was reloaded meanwhile.
+CanRetract == \/ Variant # "emit"
+              \/ (hist # <<>> /\ hist[Len(hist)] = "Next" /\ ret[1] = "rune")
 
 Do(op) == LET a == Apply(op, src, st)
               b == IApply(op, src, cur, beg)
@@ -39,7 +48,7 @@ Do(op) == LET a == Apply(op, src, st)
 
 Next == /\ ret = iret                 \* a diverged behaviour is reported once and not continued
         /\ \/ (CanNext /\ Do("Next"))
-           \/ Do("Retract") \/ Do("Lexeme") \/ Do("Skip")
+           \/ (CanRetract /\ Do("Retract")) \/ Do("Lexeme") \/ Do("Skip")
 Spec == Init /\ [][Next]_vars
 
 Refines == ret = iret
